@@ -30,6 +30,7 @@ func TestClusterSelfmon(t *testing.T) {
 	cfg.ConnectionTimeout = 300 * time.Millisecond
 	run := 0
 	jit := vt.StartJitter()
+	jit.Probe(func() { _, _ = env.etcdCli().Get(context.Background(), "/verif-probe") }, 500*time.Millisecond)
 	defer jit.Stop()
 	vt.EachInput(t, func(raw []byte) {
 		var in struct {
